@@ -57,7 +57,11 @@ def gen_program(rng):
         if rng.random() < 0.6:
             return avail[-1 - min(len(avail) - 1, rng.choice((0, 0, 1, 1, 2)))]
         return rng.choice(avail)
+    shared_at = rng.randrange(n) if rng.random() < SHARED_HELPERS_SHARE else -1
+    sink = None
     for i in range(n):
+        if i == shared_at:
+            sink = shared_helpers(rng, fresh, c, src, lines, preds, avail)
         r = rng.random()
         name = fresh()
         if r < 0.3 and nrec < 2 and i < n - 1:
@@ -114,7 +118,77 @@ def gen_program(rng):
     # the last predicate sees most of the program: usually ask for it
     if rng.random() < 0.7 and cands[-1] not in request:
         request[rng.randint(0, len(request) - 1)] = cands[-1]
+    if sink is not None and sink not in request and rng.random() < 0.5:
+        # one request that compiles all readers of the shared helpers into one plan
+        request[rng.randint(0, len(request) - 1)] = sink
     return {'text': '\n'.join(lines) + '\n', 'preds': preds, 'request': request}
+
+
+SHARED_HELPERS_SHARE = 0.45
+
+
+def shared_helpers(rng, fresh, c, src, lines, preds, avail):
+    """2-3 grounded producers, one helper over each that is neither grounded nor
+    injectable (distinct / aggregating / two rules: compiled as a WITH table inside
+    every statement that reads it), 2-3 readers (mostly grounded) that each read two
+    different helpers, and a sink over all readers.  Names are drawn, so a reader
+    sorts before or after the producers behind its helpers.  -> name of the sink."""
+    nprod = rng.choice((2, 2, 3))
+    prods, helpers = [], []
+    for _ in range(nprod):
+        g = fresh()
+        lines.append('@Ground(%s);' % g)
+        if rng.random() < 0.4:
+            rows = []
+            while len(rows) < 4:
+                r = (rng.randint(1, 4), rng.randint(1, 4))
+                if r not in rows:
+                    rows.append(r)
+            lines.append(' '.join('%s(%d,%d);' % (g, a, b) for a, b in rows))
+            s = []
+        else:
+            s = [src()]
+            lines.append('%s(x,y) :- %s(x,y), x != %d;' % (g, s[0], c()))
+        preds.append({'name': g, 'kind': 'ground', 'sources': s})
+        prods.append(g)
+    for g in prods:
+        h = fresh()
+        t = rng.choice(('distinct', 'selfjoin', 'two_rules'))
+        if t == 'distinct':
+            lines.append('%s(x,y) distinct :- %s(x,y), x != %d;' % (h, g, c()))
+        elif t == 'selfjoin':
+            lines.append('%s(x,z) distinct :- %s(x,y), %s(y,z), x != %d;' % (h, g, g, c()))
+        else:
+            lines.append('%s(x,y) :- %s(x,y), x != %d;' % (h, g, c()))
+            lines.append('%s(x,y) :- %s(y,x), y != %d;' % (h, g, c()))
+        preds.append({'name': h, 'kind': 'helper', 'sources': [g]})
+        helpers.append(h)
+    readers = []
+    for _ in range(rng.choice((2, 2, 3))):
+        r = fresh()
+        kind = 'ground' if rng.random() < 0.85 else 'plain'
+        if kind == 'ground':
+            lines.append('@Ground(%s);' % r)
+        h1, h2 = rng.sample(helpers, 2)
+        if rng.random() < 0.7:
+            lines.append('%s(x,z) :- %s(x,y), %s(y,z), x != %d;' % (r, h1, h2, c()))
+        else:
+            lines.append('%s(x,y) :- %s(x,y), x != %d;' % (r, h1, c()))
+            lines.append('%s(x,y) :- %s(y,x), y != %d;' % (r, h2, c()))
+        preds.append({'name': r, 'kind': kind, 'sources': [h1, h2],
+                      'shared_helpers': True})
+        readers.append(r)
+    sink = fresh()
+    if rng.random() < 0.5:
+        lines.append('@Ground(%s);' % sink)
+    rs = list(readers)
+    rng.shuffle(rs)
+    for i, r in enumerate(rs):
+        lines.append('%s(x,y) :- %s(%s), x != %d;' % (sink, r, 'x,y' if i % 2 == 0
+                                                      else 'y,x', c()))
+    preds.append({'name': sink, 'kind': 'plain', 'sources': rs})
+    avail.extend(readers + [sink])
+    return sink
 
 
 LOOPS_SHARE = 0.3
@@ -256,6 +330,51 @@ def check_sql_order(sp, calls):
     return out
 
 
+def check_plan_edges(sp):
+    """Plan level: every table a statement's SQL reads is produced by statements that
+    are ancestors of the reader in the recorded dependency edges (writers inside the
+    reader's own iteration group excepted: that is the loop)."""
+    out = []
+    it = plans.iterated(sp)
+    writers = {}
+    io = {}
+    for aid, sqls in sp.actions.items():
+        w, r = set(), set()
+        for sql in sqls:
+            w1, r1 = sql_io(sql)
+            w |= w1
+            r |= r1
+        io[aid] = (w, r)
+        for t in w:
+            writers.setdefault(t, set()).add(aid)
+    anc = {}
+
+    def ancestors(a):
+        if a not in anc:
+            seen, stack = set(), list(sp.requires.get(a, ()))
+            while stack:
+                q = stack.pop()
+                if q not in seen:
+                    seen.add(q)
+                    stack.extend(sp.requires.get(q, ()))
+            anc[a] = seen
+        return anc[a]
+    for aid in sorted(sp.actions):
+        w, r = io[aid]
+        for t in sorted(r - w):
+            for wa in sorted(writers.get(t, ())):
+                if wa == aid or (aid in it and it.get(wa) == it[aid]):
+                    continue
+                if wa[0] == aid[0]:
+                    continue      # the requested twin of an intermediate table
+                if wa not in ancestors(aid):
+                    out.append(('plan_reads_table_without_dependency_edge',
+                                'statement %s reads %s, written by statement %s, which '
+                                'is not among its prerequisites %s' % (
+                                    aid, t, wa, sorted(ancestors(aid)))))
+    return out
+
+
 # ------------------------------------------------------------------ compile + run
 
 class Outcome(object):
@@ -366,6 +485,10 @@ def check_program(text, request):
         return o
     sp, r = run_real(exs)
     fails, inc = judge_run(sp, r, '')
+    if not sp.problems and not (inc and inc == 'sqlite_budget'):
+        pf = check_plan_edges(sp)
+        if pf:
+            fails, inc = list(fails) + pf, None
     o.info.update(spec=sp, calls=len(r['calls']), execs=exs,
                   adjacent_dependent=plans.adjacent_dependent(sp, r['calls']))
     if inc:
@@ -418,6 +541,8 @@ def program_labels(case, o):
         ls.append('B:group_reads_other_group')
         if o.info.get('adjacent_dependent'):
             ls.append('B:group_reads_other_group_adjacent_in_log')
+    if any(p.get('shared_helpers') for p in case.get('preds', ())):
+        ls.append('B:shared_with_helpers')
     ls.append('B:request=%d' % len(case['request']))
     if any((p, False) in sp.actions for p in sp.finals):
         ls.append('B:final_and_intermediate')
